@@ -5,6 +5,7 @@ from fractions import Fraction
 import numpy as np
 
 import lib
+import translate_est
 from lib import qlit, zlist, zlit, coq_list, coq_bool
 
 IMPORTS = ("From Coq Require Import List ZArith QArith Bool.\nImport ListNotations.\n"
@@ -123,6 +124,7 @@ def run(chk):
     from causationentropy.core.information.entropy import kde_entropy
     rng = np.random.default_rng(chk.seed)
     chk.theorems()
+    lib.translator_lemma(chk, "estimator_source", translate_est.estimator_facts, translate_est.coq_estimator_facts, "")
     chk.trusted += ["Coq 8.16.1 kernel + vm_compute; Coq-Interval (BigZ floats, 80 bits) for the KDE enclosures",
                     "Model/KnnCounts.v, Model/Kde.v tied by correspondence (no translator for these anchors)",
                     "scipy cdist/digamma and scikit-learn KernelDensity are compared, not modelled: kNN values must agree with the exact "
